@@ -106,7 +106,10 @@ def rule_scope_order(prog):
                     ok = True
                     src = "get_local_table(..)"
                 elif lt.get("k") == "Path" and last(lt["res"].get("ctor_of", "")) == "None":
-                    ok = proc_bind is None
+                    has_proc = proc_bind is not None or any(
+                        hir.adt_path(bc, pp["bt"]) in ("spl_frontend::ast::ProcedureDeclaration", "spl_frontend::table::ProcedureEntry")
+                        for q in b["params"] for pp in hir.pat_bindings(q))
+                    ok = not has_proc
                     src = "None"
                 out.add(b["d"], "LookupTable for `%s` is built from the enclosing procedure's local table" % kp.split("#")[0],
                         ok, bc.loc(n["sp"]), "local_table = %s, procedure context = %s" % (src, proc_bind), ("site",))
@@ -302,8 +305,22 @@ def rule_entry_kind(prog):
     b = bs[0]
     tabs = match_tables(prog, b, ENTRY)
     if len(tabs) != 1:
-        out.add("table::Entry::is_default", "dispatches on the entry kind", None, fc.loc(b["sp"]),
-                "is_default() is no longer a match over the entry kinds; the rule cannot tell whether locals are excluded")
+        # no dispatch on the entry kind at all => the answer is the same for every kind, and it can be `true`
+        mentions = False
+        for x in hir.nodes(b["body"]):
+            pats = []
+            if x.get("k") == "Match":
+                pats = [a["pat"] for a in x["arms"]]
+            elif x.get("k") == "LetExpr":
+                pats = [x["pat"]]
+            for p_ in pats:
+                for alt in hir.pat_alternatives(p_):
+                    if (hir.pat_variant(alt) or "").startswith(ENTRY + "::"):
+                        mentions = True
+        for kind in ("Variable", "Parameter"):
+            out.add("table::Entry::is_default", "%s entries are never predefined" % kind, None if mentions else False, fc.loc(b["sp"]),
+                    "is_default() does not distinguish entry kinds any more: a local variable or parameter that is named like "
+                    "a builtin (`time`, `exit`, ...) counts as predefined and go-to returns nothing for it")
         return out
     m, table, default, has_default = tabs[0]
     for kind in ("Variable", "Parameter"):
@@ -393,6 +410,19 @@ def rule_len_units(prog):
                 n += 1
                 out.add(b["d"], "`%s` combines lengths of one unit" % x["op"], ua == ub, c.loc(x["sp"]),
                         "left operand counts %ss, right operand counts %ss: equal only for ASCII text" % (ua, ub), ("arith",))
+        # byte-range sinks: TextChange.range / String::replace_range take byte offsets
+        for s in hir.nodes(b["body"], "Struct"):
+            if (s.get("adt") or "") == "spl_frontend::TextChange":
+                for fl in s["fields"]:
+                    if fl["name"] == "range":
+                        for r in hir.nodes(fl["e"], "Struct"):
+                            if (r.get("adt") or "").startswith("core::ops::range::Range"):
+                                for rf in r["fields"]:
+                                    u = unit(rf["e"])
+                                    if u:
+                                        n += 1
+                                        out.add(b["d"], "TextChange.range bounds are byte offsets", u == "byte", c.loc(r["sp"]),
+                                                "a bound of the change range counts %ss; text ranges are byte ranges" % u, ("arith",))
         # LSP sinks: SemanticToken.length / delta_start must be UTF-16
         for s in hir.nodes(b["body"], "Struct"):
             if (s.get("adt") or "").endswith("lsp_types::semantic_tokens::SemanticToken"):
@@ -589,7 +619,47 @@ def rule_comment_pairing(prog):
                     "`%s` has %d own tokens (%s); its parser skips comments in front of each of them, but the formatter only "
                     "re-attaches the comments in front of the first token: every other comment inside is lost"
                     % (label, len(toks), ", ".join(toks)), (node,))
-    if seen < 10:
+    # every variant of Statement / GlobalDeclaration re-attaches (at least) the comments in front of its first token:
+    # in its arm, or in the Format impl the arm delegates to, or by printing the raw token slice (AstInfo::fmt)
+    impl_has_helper = {}
+    for b in c.bodies:
+        if b["p"].startswith("lsp4spl::features::formatting::fmt::") and b["name"] == "fmt" and "impl_self" in b:
+            st = c.ty(b["impl_self"])
+            if st["k"] == "adt":
+                impl_has_helper[last(st["p"])] = any(last(hir.callee(n) or "") in helpers for n in hir.nodes(b["body"], "Call"))
+    for b in c.bodies:
+        if not (b["p"].startswith("lsp4spl::features::formatting::fmt::") and b["name"] == "fmt" and "impl_self" in b):
+            continue
+        st = c.ty(b["impl_self"])
+        if st["k"] != "adt" or last(st["p"]) not in ("Statement", "GlobalDeclaration"):
+            continue
+        for m in hir.nodes(b["body"], "Match"):
+            if m["src"] != "match":
+                continue
+            for arm in m["arms"]:
+                pv = hir.pat_variant(arm["pat"]) or ""
+                if not pv.startswith(st["p"] + "::"):
+                    continue
+                direct = any(last(hir.callee(n) or "") in helpers for n in hir.nodes(arm["body"], "Call"))
+                delegated = False
+                raw = False
+                for mc in hir.nodes(arm["body"], "MethodCall"):
+                    if mc["m"] == "fmt":
+                        t = hir.peel(c, mc["recv"]["t"])
+                        for a in mc["recv"].get("adj") or []:
+                            t = hir.peel(c, a["to"])
+                        if t["k"] == "adt":
+                            if last(t["p"]) == "AstInfo":
+                                raw = True
+                            elif impl_has_helper.get(last(t["p"])):
+                                delegated = True
+                seen += 1
+                out.add("Format for " + last(st["p"]), "%s::%s re-attaches the comments in front of its first token" % (last(st["p"]), last(pv)),
+                        direct or delegated or raw, c.loc(arm["sp"]),
+                        "every token parser swallows the comments in front of its token, so the token range of this variant starts "
+                        "with them; its arm neither applies a comment helper, nor delegates to a Format impl that does, nor prints "
+                        "the raw token slice: those comments vanish", (last(st["p"]), "variant"))
+    if seen < 20:
         out.missing("comment helper applications in formatting::fmt (found %d)" % seen)
     return out
 
